@@ -128,7 +128,13 @@ AStep(c) ==
      /\ hist' = Append(hist, e.ev)
   /\ UNCHANGED text
 
-ANext == \E c \in Calls(st) : AStep(c)
+AGetChar == Len(hist) >= 0 /\ AStep(<<1>>)
+AGetPosition == Len(hist) >= 0 /\ AStep(<<2>>)
+ASetPosition == \E o \in st.saved : AStep(<<3, o>>)
+ASetBad == ~st.bad /\ AStep(<<4>>)
+ALiteral == Len(hist) >= 0 /\ \E c \in LitChars : AStep(<<5, c>>)
+ACharSet == Len(hist) >= 0 /\ \E cs \in CSets : AStep(<<6, cs>>)
+ANext == AGetChar \/ AGetPosition \/ ASetPosition \/ ASetBad \/ ALiteral \/ ACharSet
 ASpec == AInit /\ [][ANext]_avars
 AView == <<text, st>>
 AViewDepth == <<text, st, Len(hist)>>
